@@ -243,8 +243,9 @@ def find_item(src, mask, lo, hi, kind, name):
             if rx.search(mask[hs:ob]):
                 return hs, cb + 1
         raise Lost('%s %s not found' % (kind, name))
-    if kind in ('const', 'static', 'type'):
-        rx = re.compile(r'(?m)^[ \t]*(pub(\([a-z]+\))?\s+)?%s\s+%s\b' % (kind, re.escape(name)))
+    if kind in ('const', 'static', 'type', 'tstruct'):
+        # tstruct: a tuple struct `struct Name(..);` (attributes above it are not copied)
+        rx = re.compile(r'(?m)^[ \t]*(pub(\([a-z]+\))?\s+)?%s\s+%s\b' % ('struct' if kind == 'tstruct' else kind, re.escape(name)))
         m = rx.search(mask, lo, hi)
         if not m:
             raise Lost('%s %s not found' % (kind, name))
@@ -816,6 +817,13 @@ def assemble(unit_path, repo, vf_dir):
                 # ensures-annotated `exec static` otherwise)
                 text = re.sub(r'\bstatic\b', 'const', text, count=1)
                 A.counts.hit('D14_static_to_const')
+            if kind == 'tstruct':
+                text = re.sub(r'\((\s*)(pub\s+)?', r'(\1pub ', text, count=1)
+                ks = [d for d in opts.get('derive', '').split(',') if d and d != 'none']
+                if 'PartialEq' in ks and 'Eq' in ks:
+                    ks.append('Structural')
+                if ks:
+                    text = '#[derive(%s)]\n' % ', '.join(ks) + text
             if kind == 'struct':
                 # D9: all fields public (visibility only; Verus treats a struct with any private
                 # field as opaque in specifications)
